@@ -35,6 +35,7 @@
 #include <charconv>
 #include <cmath>
 #include <cstdint>
+#include <cstdio>
 #include <cstdlib>
 #include <cstring>
 #include <functional>
@@ -855,7 +856,7 @@ private:
     case JsonType::Int:
       return std::to_string(getInt());
     case JsonType::Double:
-      return std::to_string(getDouble());
+      return _formatDouble(getDouble());
     case JsonType::String:
       return _escapeString(getString());
     case JsonType::Array:
@@ -865,6 +866,34 @@ private:
     default:
       return "null";
     }
+  }
+
+  /// \brief Format a double so that parsing the text yields the same double
+  /// (17 significant digits) and the token re-parses as a Double, not an Int.
+  /// Non-finite values have no JSON representation and are emitted as null.
+  static std::string _formatDouble(double d)
+  {
+    if (!std::isfinite(d))
+    {
+      return "null";
+    }
+    // Shortest of 15/16/17 significant digits that reads back as the same double
+    // (17 always does).
+    char buf[32];
+    for (int precision = 15; precision <= 17; ++precision)
+    {
+      std::snprintf(buf, sizeof(buf), "%.*g", precision, d);
+      if (std::strtod(buf, nullptr) == d)
+      {
+        break;
+      }
+    }
+    std::string out(buf);
+    if (out.find_first_of(".eE") == std::string::npos)
+    {
+      out += ".0";
+    }
+    return out;
   }
 
   std::string _serializeArray(const SerializeOptions &options, int depth) const
